@@ -436,15 +436,19 @@ pub fn run(args: &Args, sh: &mut Shard) {
     for (kind, n) in [("bar", n_bar), ("caps", n_caps), ("mmiocam", n_mc)] {
         let mut case = args.shard;
         while case < n {
+            crate::rng::reset_case_fp();
             let vs = match kind {
                 "bar" => bar_case(case, args.seed, sh),
                 "caps" => caps_and_enum_case(case, args.seed, sh),
                 _ => mmiocam_case(case, args.seed, sh),
             };
             sh.evaluations += 1;
+            // distinct by content: fingerprint of every generated value (plus the enumerated command bits)
             let mut h = Hash64::new();
-            h.u64(case);
-            h.u64(args.seed);
+            h.u64(crate::rng::take_case_fp());
+            if kind == "bar" {
+                h.u64(case & 0x3ff);
+            }
             h.bytes(kind.as_bytes());
             sh.nontrivial.insert(h.finish());
             if sh.want_sample() && kind == "bar" && case < 32 {
